@@ -57,7 +57,7 @@ func runC15(tier string) int {
 			"script" + m[0] + " S {\n\tL1" + lm + ":\n\tporyswitch(PV) {\n\t\tA {\n\t\t\tPL(global):\n\t\t\tPM:\n\t\t}\n\t\t_ {\n\t\t\tPL:\n\t\t\tPM(global):\n\t\t}\n\t}\n\tif (flag(A)) {\n\t\tmsgbox(\"hi\")\n\t}\n\twhile (var(V) < 2) {\n\t\tapplymovement(1, moves(u d))\n\t\tL2:\n\t}\n\tswitch (var(W)) {\n\t\tcase 1:\n\t\t\tx\n\t\tdefault:\n\t\t\ty\n\t}\n}\n",
 			"text" + m[1] + " " + ns[0] + " {\n\t\"hello\"\n}\n",
 			"movement" + m[2] + " " + ns[1] + " {\n\tu\n\td\n}\n",
-			"mart" + m[3] + " " + ns[2] + " {\n\tI1\n}\n",
+			"mart" + m[3] + " " + ns[2] + " {\n\tI1\n\tITEM_NONE\n\tI2\n}\n",
 			"mapscripts" + m[4] + " Map {\n\tON_RESUME: S\n\tON_LOAD {\n\t\tif (flag(B)) {\n\t\t\tmsgbox(\"map\")\n\t\t}\n\t\tL3" + lm + ":\n\t}\n\tON_FRAME [\n\t\tVAR_A, 0: S\n\t\tVAR_A, 1 {\n\t\t\tmsgbox(\"tab\")\n\t\t\tif (flag(C)) {\n\t\t\t\tz\n\t\t\t}\n\t\t}\n\t]\n\tON_TRANSITION {\n\t\tapplymovement(2, moves(l r))\n\t}\n}\n",
 			"script S2 {\n\tmsgbox(\"s2a\")\n\tmsgbox(\"s2b\")\n\tapplymovement(3, moves(u d))\n\tapplymovement(4, moves(l r))\n}\n",
 		}
